@@ -9,6 +9,7 @@ import (
 	"fmt"
 	"reflect"
 	"regexp"
+	"sort"
 	"strconv"
 	"strings"
 
@@ -460,6 +461,9 @@ func evaluateCollectionExpression(expression *grammar.CollectionExpression, datu
 			return false, fmt.Errorf("%s can only iterate over maps indexed with strings", expression.Op)
 		}
 		keys = v.MapKeys()
+		// visit the entries in a fixed order, the result must not depend on
+		// the randomized iteration order of Go maps
+		sort.Slice(keys, func(i, j int) bool { return keys[i].String() < keys[j].String() })
 	}
 
 	switch v.Kind() {
